@@ -22,7 +22,7 @@ PROP = "C11"
 MAX_VIOLATIONS = 5          # replay files written per run; further failing points are only counted
 MODES = ["kill_before", "kill_after", "kill_mid"]
 CORPUS = os.path.join(common.ROOT, "corpus", PROP)
-LEFTOVER = (".PID.renamify.tmp",)
+LEFTOVER = (".PID.renamify.tmp", ".renamify.tmp")
 
 
 def pairs(orig_tree, plan):
@@ -82,6 +82,14 @@ def usable(obs, orig_tree, plan):
         det.append(("history", "bad", []))
     fu = obs.get("follow")
     if fu:
+        for key, comp in (("same", "blocked:same_command_again"), ("other", "blocked:other_rename_same_files")):
+            if key in fu and fu[key]["blocked"]:
+                comps.add(comp)
+                det.append((key, fu[key]["cmd"], fu[key]["rc"], fu[key]["stderr"][-160:]))
+        for c in ("status", "history"):
+            if fu.get(c, 0) != 0:
+                comps.add("blocked:" + c)
+                det.append((c, fu[c], fu.get(c + "_err", "")))
         for c in ("plan_dry", "plan", "rename"):
             if fu[c] != 0:
                 comps.add("blocked:" + c)
@@ -146,6 +154,11 @@ def replay_case(sc, pt):
 def judge(ctx, sc, plan, pre0, pt, obs, model):
     comps, det = usable(obs, pre0["tree"], plan)
     diffs = F.compare_state(obs, model, sc["cmd"]) if model else [("model", "no answer")]
+    fu = obs.get("follow") or {}
+    seen_block = any("File exists" in fu.get(k, {}).get("stderr", "") and "temp file" in fu.get(k, {}).get("stderr", "")
+                     for k in ("same", "other"))
+    if model and "same" in fu and model.get("leftover_blocks", False) != seen_block:
+        diffs = diffs + [("leftover_blocks", model.get("leftover_blocks"), seen_block)]
     case = replay_case(sc, pt)
     ctx.count("mode:" + pt["mode"])
     ctx.count("phase:" + str(pt.get("phase")))
